@@ -636,6 +636,20 @@ func (g *Gen) poryStmt(contOK bool) *PorySwitch {
 		}
 		s.Cases = append(s.Cases, c)
 	}
+	// the same label statement in two alternative cases is legal: at most one of them is compiled
+	if len(s.Cases) >= 2 && g.R.IntN(4) == 0 {
+		name := g.Name("LblAlt")
+		n := 0
+		for _, c := range s.Cases {
+			if c.Brace && n < 2 {
+				c.Body.Stmts = append([]Stmt{&Label{ID: g.Prog.NewID(), Name: name}}, c.Body.Stmts...)
+				n++
+			}
+		}
+		if n > 0 {
+			g.labels = append(g.labels, name)
+		}
+	}
 	g.depth--
 	return s
 }
